@@ -66,7 +66,7 @@ class Indenter(PostLex, ABC):
 
         while len(self.indent_level) > 1:
             self.indent_level.pop()
-            yield Token.new_borrow_pos(self.DEDENT_type, '', token) if token else Token(self.DEDENT_type, '', 0, 0, 0, 0, 0, 0)
+            yield Token.new_borrow_pos(self.DEDENT_type, '', token) if token is not None else Token(self.DEDENT_type, '', 0, 0, 0, 0, 0, 0)
 
         assert self.indent_level == [0], self.indent_level
 
